@@ -111,7 +111,21 @@ pub fn c18(seed: u64, n: usize) {
         }
         // ... except for exactly representable zero-width arcs (from = to + whole turns): only `from` is compliant
         if i % 16 == 7 { f[0] = 2.0 * PI; t[0] = 0.0; f[3] = PI; t[3] = -PI; }
-        let c = Constraints::new(f, t, 0.0);
+        // arcs of positive width below the machine epsilon (possible for |limits| < 1): still arcs, not "no limit".
+        // "exact": from = 0, so centre = tolerance = to/2 and every comparison is exact. "inexact": the midpoint of a
+        // one-ulp arc is not representable, the centre rounds onto an end and the other end is rejected (finding D22).
+        let mut fam = String::from(fam);
+        if i % 8 == 5 {
+            let exact = (i / 8) % 2 == 0;
+            for k in [1usize, 4] {
+                f[k] = if exact { 0.0 } else { *r.pick(&[1e-3, -0.25, 0.5]) };
+                t[k] = f[k] + *r.pick(&[1e-16, 2e-17, 1e-12]);
+                if !(f[k] < t[k]) { t[k] = crate::gen::next_up(f[k]); }
+            }
+            fam.push_str(if exact { "/sub-epsilon-exact" } else { "/sub-epsilon-inexact" });
+        }
+        let fam = fam.as_str();
+        let c = crate::gen::make_constraints(&f, &t, 0.0);
         let mut l = Line::new("C18", fam, "c18");
         l.j6(&f).j6(&t).arrow();
         let out = catch(std::panic::AssertUnwindSafe(|| {
@@ -221,8 +235,10 @@ pub fn c17(seed: u64, n: usize) {
 /// `Frame::forward_transformed` cases
 pub fn fwd_tr_cases(prop: &str, r: &mut Rng, n: usize) {
     for _ in 0..n {
-            let (rfam, prm) = gen_params(r);
-            let ks = KSpec::bare(prm);
+            let (mut rfam, prm) = gen_params(r);
+            let mut ks = KSpec::bare(prm);
+            // the robot inside the frame may itself be wrapped (a frame in a frame, a tool, a base)
+            if r.chance(0.4) { let d = 1 + r.below(2); ks.stack = crate::gen::gen_stack(r, d, false, false); rfam.push_str("/nested"); }
             let fr = Isometry3::from_parts(Translation3::new(r.range(-0.05, 0.05), r.range(-0.05, 0.05), r.range(-0.05, 0.05)),
                                            nalgebra::UnitQuaternion::from_scaled_axis(Vector3::new(r.range(-0.05, 0.05), r.range(-0.05, 0.05), r.range(-0.05, 0.05))));
             let f = Frame { robot: ks.build(), frame: fr };
@@ -266,9 +282,18 @@ pub fn c15(seed: u64, n: usize) {
         let mut fam = rfam.clone();
         if i % 3 == 1 { let d = 1 + r.below(2); ks.stack = gen_stack(&mut r, d, false, false); fam.push_str("/wrapped"); }
         if i % 7 == 3 { let d = r.below(6); let mut c = r.below(6); if c == d { c = (c + 1) % 6; } ks.stack.push(Wrap::P(r.range(-1.0, 1.0), d, c)); fam.push_str("/para"); }
-        let robot = Dyn(ks.build());
         let mut q = rand_joints(&mut r, PI);
         let eps = *r.pick(&[1e-7, 1e-6, 1e-5]);
+        if i % 5 == 2 {
+            // a robot with joint limits, the joint vector inside them; every third of these with one joint less than a
+            // differencing step away from a limit (the perturbed vector leaves the range: the Jacobian must not care)
+            let mut f = [0.0; 6]; let mut t = [0.0; 6];
+            for k in 0..6 { f[k] = q[k] - r.range(0.05, 1.5); t[k] = q[k] + r.range(0.05, 1.5); }
+            fam.push_str("/limits");
+            if r.chance(0.5) { let k = r.below(6); if r.chance(0.7) { t[k] = q[k] + eps * 0.4; } else { f[k] = q[k] - eps * 0.4; } fam.push_str("/at-limit"); }
+            ks.cons = Some((f, t, *r.pick(&[0.0, 0.5])));
+        }
+        let robot = Dyn(ks.build());
         if i % 6 == 5 {
             // joint vector just below a point where the quaternion returned by forward() switches sign
             // (branch change of from_rotation_matrix): q and q + eps*e_j straddle the switch
